@@ -259,7 +259,7 @@ def parse_spec(path):
         if toks[2] == "-":
             res.setdefault(toks[0], []).append(None)
             continue
-        d = {}
+        d = {"_raw": " ".join(toks[2:])}
         for t in toks[2:]:
             k, _, v = t.partition("=")
             d[k] = v
